@@ -505,6 +505,7 @@ fn verify<B: Image>(art: &mut Artifact<B>, model: &[ModelLayer], name: &Option<S
     p
 }
 
+#[derive(Clone, Copy)]
 pub struct C20;
 
 impl Prop for C20 {
